@@ -311,6 +311,7 @@ func (w *idpWorld) do(r idpReq, kind string) string {
 
 func (w *idpWorld) flush() {
 	toks := append([]string{fmt.Sprint(w.n)}, w.toks...)
+	w.c.units += w.n
 	w.c.emit("idphist", toks, strings.Join(w.impl, " "), strings.Join(w.orc, " | "))
 }
 
